@@ -21,9 +21,6 @@ CORR_ONLY = ["accuracy of the Boost rules (trapezoidal, gauss<30>, gauss_kronrod
              "(C16 proves the Spherical_Coordinates algebra)"]
 ASSUMPTIONS = ["the model's 1-D rule is the exact 17-point Newton-Cotes rule (exact to degree 17): the model value for a polynomial "
                "integrand is the exact iterated integral through the coded wrappers (validated by the driver self-test)",
-               "Adaptive-Simpson is asked for eps = 1e-9 * |first Simpson estimate| (Find_Epsilon); its accuracy is judged against "
-               "4*eps (the bound C03 proves under the regularity hypothesis) + 1e-9 * integral of |f|; observed on the unchanged tree: "
-               "errors up to 2.8 * eps, i.e. 2.8e-9 relative, on a Lorentzian near the end of the interval",
                "Trapezoidal: Boost stops after 2048 panels, the leading Euler-Maclaurin term bounds the error by 0.89e-6 * integral |f| "
                "on the whole damped-oscillation domain (<= 2 periods, damping <= e^-2), so 1e-6 is met with ~10% margin"]
 TRUSTED = ["mpmath.quad (30 digits) as reference for the non-polynomial families",
@@ -181,6 +178,19 @@ def generate(tier, seed, ctx):
             p = 0 if t < 2 else _param(rng, m, 6)
             add("c13.sph %s %d %s %s %s %s %s %s 1 %s" % (m, p, hx(r1), hx(r2), hx(c1), hx(c2), hx(f1), hx(f2), _terms(ts)),
                 cls="full" if t % 2 == 0 else "sub", orient=orient, pc=p != 0)
+    # ---- Adaptive-Simpson on rational bumps (fix ad02385: Find_Epsilon precision 1e-10) -------------------
+    # the request that missed 1e-9 relative before the fix (2.8e-9), then a deterministic family of the same kind:
+    # Lorentzian of width ~ interval, peak near an end / at the centre, plus an offset
+    orig = (1, 8.386010451258915, 2.667224418300612, 0.3759869620238562)
+    for p, (a, b) in ((0, (2.113, 2.755)), (1, (2.113, 2.755)), (0, (2.755, 2.113))):
+        add("c13.fam1 Adaptive-Simpson %d %s %s %s" % (p, hx(a), hx(b), _famstr(orig)), cls="bump-orig", orient=int(a > b), pc=p != 0)
+    for (a, b) in ((2.113, 2.755), (-1.0, 0.5)):
+        L = b - a
+        for w in (1.5, 3.456, 6.0):
+            for pos in (0.137, 0.5, 0.863):
+                for off in ((0.3759869620238562, 0.1) if thorough else (0.3759869620238562,)):
+                    f = (1, w / L ** 2, a + pos * L, off)
+                    add("c13.fam1 Adaptive-Simpson 0 %s %s %s" % (hx(a), hx(b), _famstr(f)), cls="bump", orient=0, pc=False)
     # ---- Monte-Carlo front ends --------------------------------------------------------------------
     for m in MC:
         for t in range(2 * rep):
@@ -300,7 +310,7 @@ def _pyfam(f):
 
 def _fam_ref(f, a, b):
     """(integral a..b with mpmath, integral of |f| over the interval (scale only: 400-point midpoint sum),
-    |first Simpson estimate|)"""
+    |first Simpson estimate| (informational))"""
     key = (f, a, b)
     if key in _FAMCACHE:
         return _FAMCACHE[key]
@@ -398,7 +408,7 @@ def compare(rq, impl, model, ctx):
         else:
             f = _fams(a, 4, 1)[0]
             I, A, S = _fam_ref(f, x1, x2)
-            ref = Fraction(float(I)) + Fraction(float(I - float(I))); sc = Fraction(float(A + (4 * S if m == "Adaptive-Simpson" else 0)))
+            ref = Fraction(float(I)) + Fraction(float(I - float(I))); sc = Fraction(float(A))
         d = abs(Fraction(v) - ref)
         _worst(ctx, "1D %s err/tol" % m, float(d / (rel * sc)) if sc else 0.0)
         if d > rel * sc:
@@ -449,7 +459,7 @@ def compare(rq, impl, model, ctx):
         for f, (x1, x2) in zip(fams, [(L[2 * i], L[2 * i + 1]) for i in range(dim)]):
             I, A, S = _fam_ref(f, x1, x2)
             ref *= Fraction(float(I)) + Fraction(float(I - float(I)))
-            sc *= Fraction(float(A + (4 * S if m == "Adaptive-Simpson" else 0)))
+            sc *= Fraction(float(A))
         rel = rel * dim
     d = abs(Fraction(v) - ref)
     _worst(ctx, "%dD %s %s err/tol" % (dim, m, op[4:]), float(d / (rel * sc)) if sc else 0.0)
